@@ -5,7 +5,10 @@ use crate::utils::time::curr_time_millis;
 use crate::Error;
 use std::collections::HashMap;
 use std::sync::Arc;
+#[cfg(not(flea1lt_sentinel_rust_verif))]
 use std::sync::RwLock;
+#[cfg(flea1lt_sentinel_rust_verif)]
+use crate::verif::sync::{RwLock};
 pub type ContextPtr = Arc<RwLock<EntryContext>>;
 
 #[derive(Default)]
